@@ -323,12 +323,10 @@ where
                 let ts = Timestamp::read_from(reader)?;
                 Ok(Changeset::EmptySet { versions, ts })
             }
-            _ => {
-                // Read and discard the invalid tag to avoid issues, then create a proper error
-                let _ = reader.read_u8()?;
-                // This is a bit of a hack but should work for speedy contexts
-                panic!("Invalid changeset variant tag: {}", variant_tag);
-            }
+            _ => Err(speedy::Error::custom(format!(
+                "invalid changeset variant tag: {variant_tag}"
+            ))
+            .into()),
         }
     }
 }
